@@ -215,6 +215,10 @@ pub struct World {
     /// the application drains every channel right after every delivery
     pub prompt_drain: bool,
     pub hostile_seen: Vec<bool>,
+    /// connection slots that have joined (C11 lets clients join late)
+    pub active: Vec<bool>,
+    /// every packet carrying this reliable message is dropped forever: (link, channel, message id)
+    pub blackhole: Option<(Dir, u8, u64)>,
 }
 
 pub fn content_key(client: usize, to_client: bool, ch: u8, serial: u32) -> u64 {
@@ -297,11 +301,41 @@ impl World {
         }
         while server.get_event().is_some() {}
         let n = cfg.n_clients;
-        World { cfg, server, clients, dirs, packets: vec![], now_ms: 0, or, prompt_drain: false, hostile_seen: vec![false; n] }
+        World { cfg, server, clients, dirs, packets: vec![], now_ms: 0, or, prompt_drain: false, hostile_seen: vec![false; n], active: vec![true; n], blackhole: None }
     }
 
     pub fn all_dirs(&self) -> Vec<Dir> {
-        self.dirs.iter().map(|d| d.dir).collect()
+        self.dirs.iter().map(|d| d.dir).filter(|d| self.active[d.client]).collect()
+    }
+
+    /// World in which only the first `joined` clients are connected at the start.
+    pub fn new_partial(cfg: WorldCfg, or: Oracles, joined: usize) -> Self {
+        let mut w = World::new(cfg, or);
+        for i in joined..w.cfg.n_clients {
+            w.server.remove_connection(client_id(i));
+            w.active[i] = false;
+        }
+        while w.server.get_event().is_some() {}
+        w
+    }
+
+    pub fn join(&mut self, i: usize) {
+        if !self.active[i] {
+            self.active[i] = true;
+            self.server.add_connection(client_id(i));
+            while self.server.get_event().is_some() {}
+        }
+    }
+
+    /// The blackholed message and, on an ordered channel, everything queued behind it carry no liveness obligation.
+    pub fn exempt(&self, d: Dir, ch: u8, m: &Msg) -> bool {
+        match self.blackhole {
+            Some((bd, bch, mid)) if bd == d && bch == ch => {
+                let kind = self.dirs[d.idx()].chans[&ch].cfg.kind;
+                m.mid == mid || (kind == Kind::Ordered && m.mid > mid)
+            }
+            _ => false,
+        }
     }
 
     // ---- endpoint access -------------------------------------------------
@@ -730,15 +764,13 @@ impl World {
                         return Err(Fail::new("emitted_unknown_channel", format!("packet for unconfigured channel {ch}")));
                     };
                     if idx == 0 {
-                        // the first slice carries the header of the message
+                        // the first slice identifies the message: oldest unflushed sliced message starting with these bytes
                         if let Ok(Packet::UnreliableSlice { slice, .. }) = decode_packet(&bytes) {
-                            if slice.payload.len() >= HEADER && slice.payload[0] == 0xA5 {
-                                let serial = u32::from_le_bytes([slice.payload[4], slice.payload[5], slice.payload[6], slice.payload[7]]) as usize;
-                                if serial < cm.msgs.len() && cm.msgs[serial].parts == n {
-                                    cm.sliced.insert(sid, serial);
-                                    cm.msgs[serial].flushed = true;
-                                    cm.msgs[serial].sent_in_flush = Some(flush_no);
-                                }
+                            let found = cm.msgs.iter().position(|m| !m.flushed && m.parts == n && m.content.len() >= slice.payload.len() && m.content[..slice.payload.len()] == slice.payload[..]);
+                            if let Some(serial) = found {
+                                cm.sliced.insert(sid, serial);
+                                cm.msgs[serial].flushed = true;
+                                cm.msgs[serial].sent_in_flush = Some(flush_no);
                             }
                         }
                     }
@@ -1067,6 +1099,18 @@ impl World {
 
     pub fn enqueue(&mut self, pid: usize, delay_ms: u64) {
         let d = self.packets[pid].dir;
+        if let Some((bd, bch, mid)) = self.blackhole {
+            if bd == d {
+                let hit = match &self.packets[pid].info {
+                    PInfo::SmallRel { ch, msgs } => *ch == bch && msgs.iter().any(|(i, _)| *i == mid),
+                    PInfo::RelSlice { ch, mid: m, .. } => *ch == bch && *m == mid,
+                    _ => false,
+                };
+                if hit {
+                    return;
+                }
+            }
+        }
         let due = self.now_ms + delay_ms;
         self.dirs[d.idx()].link.push(InFlight { pid, due_ms: due });
     }
